@@ -509,20 +509,25 @@ func visitInstr(fr *Frame, instr ssa.Instruction) int {
 		fr.set(instr, &Closure{instr.Fn.(*ssa.Function), bindings})
 
 	case *ssa.Select:
-		// Supported: non-blocking select whose cases are receives; a receive is ready iff the channel is closed.
-		if instr.Blocking {
-			panic(abort{st: StUnsupported, msg: "blocking select"})
+		// Supported: select whose cases are receives; a receive is ready iff the channel is closed (channels carry no
+		// values in this engine; a nil channel - e.g. the never-firing ticker - is never ready). A blocking select
+		// parks the goroutine until one of its channels is closed.
+		ready := func() int {
+			for i, st := range instr.States {
+				if st.Dir != types.RecvOnly {
+					panic(abort{st: StUnsupported, msg: "select send"})
+				}
+				ch := fr.get(st.Chan).(*Chan)
+				if ch != nil && ch.closed {
+					return i
+				}
+			}
+			return -1
 		}
-		chosen := -1
-		for i, st := range instr.States {
-			if st.Dir != types.RecvOnly {
-				panic(abort{st: StUnsupported, msg: "select send"})
-			}
-			ch := fr.get(st.Chan).(*Chan)
-			if ch != nil && ch.closed {
-				chosen = i
-				break
-			}
+		chosen := ready()
+		if chosen < 0 && instr.Blocking {
+			it.sched.block("select", func() bool { return ready() >= 0 })
+			chosen = ready()
 		}
 		r := Tuple{norm(uint64(int64(chosen)), 64, true), false}
 		for _, st := range instr.States {
